@@ -20,7 +20,7 @@ from vlib import enc_str, dec_str, enc_list
 from props import runner_gen as G
 
 THEOREMS = ["C10_step", "C10_output_false", "C10_queries", "C10_exit_toggle", "C10_latest", "C10_latest_wins",
-            "C10_alias_body", "C10_alias"]
+            "C10_alias_body", "C10_alias", "C10_nonvacuous"]
 FUEL = 2000
 SCRATCH = os.path.join(vlib.ROOT, ".cache", "c10")
 WATCH = ["e", "l", "s", "x", "y", "t"]
@@ -226,13 +226,14 @@ def agree(m, i, fails):
 def calibrate(ck):
     """failing library / script-implemented commands and their messages, as the implementation reports them"""
     libs, fails, dropped = [], {"myfail": "inner"}, []
-    lines = []
+    lines, texts = [], []
     for name, args, cat in LIB_CANDIDATES:
         call = " ".join([name] + args)
         text = "x = %s\ne = get_last_error\nl = get_last_error_line\ny = %s\ns = get_last_error\nhsnap x e l y s\n" % (call, call)
+        texts.append(text)
         lines.append(impl_line(text, {}, None))
     outs = ck.impl(lines)
-    for (name, args, cat), o in zip(LIB_CANDIDATES, outs):
+    for (name, args, cat), o, text in zip(LIB_CANDIDATES, outs, texts):
         f = o.split("\t")
         ok = False
         if len(f) == 6 and f[0] == "OK" and f[4] != "-":
@@ -244,7 +245,7 @@ def calibrate(ck):
                     fails[name] = msg
                     ok = True
         if not ok:
-            dropped.append(name)
+            dropped.append((name, args, cat, text, o))
     return libs, fails, dropped
 
 
@@ -301,6 +302,24 @@ def sequences(n):
     return out
 
 
+def replay(ck, data):
+    """vcheck C10 --replay file: re-run the recorded case on both sides; status 1 if they still disagree"""
+    print("script:\n" + str(data.get("script")))
+    if "wire_impl" not in data:
+        print("replay: no case line in this file (%s); re-run the check itself" % data.get("kind"))
+        return 1
+    ck.ocaml_build()
+    ck.harness_build(["c10"])
+    m, i = ck.model([data["wire_model"]])[0], ck.impl([data["wire_impl"]])[0]
+    print("model:          " + m)
+    print("implementation: " + i)
+    ff = data["wire_model"].split("\t")[3]
+    fails = {} if ff == "-" else {dec_str(kv.split("=")[0]): dec_str(kv.split("=")[1]) for kv in ff.split(";")}
+    same = agree(m, i, fails)
+    print("REPLAY: " + ("agree now" if same else "still disagree"))
+    return 0 if same else 1
+
+
 def run(ck):
     ck.gen_from_source()
     ck.coq_build(["props/C10.vo", "extract/C10_extract.vo"])
@@ -320,6 +339,17 @@ def run(ck):
         return
 
     libs, fails, dropped = calibrate(ck)
+    # a candidate that does not fail in the shape C10_step / C10_alias predict (output "false", some message m
+    # recorded with line 1, the same m the second time) is itself a disagreement with the model
+    for name, args, cat, text, o in dropped:
+        found = True
+        ck.violation({
+            "kind": "a failing %s command's error did not surface as the model predicts for any message" % ("script-implemented" if cat == "script" else "library"),
+            "script": text, "implementation": o,
+            "model": "snapshot (x, e, l, y, s) = (false, m, 1, false, m) for some message m without '$', '%', backslash",
+            "theorems": ["C10_step", "C10_alias"], "seed": ck.seed,
+            "replay_cmd": "printf '%s\\n' | .cache/cargo-target/release/c10" % impl_line(text, {}, None).replace("\t", "\\t")})
+    dropped = [d[0] for d in dropped]
     stats = {"placement_static": {}, "mode": {"text": 0, "file": 0}, "model_outcome": {}, "with_include": 0,
              "errors_executed": {}, "errors_per_run": {}, "exit_on_error_fatal": 0, "calibrated": sorted(fails), "dropped_candidates": dropped}
     cases = []        # (main, fdefs, src, kind)
@@ -335,7 +365,7 @@ def run(ck):
     for main, fdefs, _ in sequences(5 if thorough else 4):
         cases.append((main, fdefs, None, "sequence"))
     n_seq = len(cases) - n_place
-    n_rand = 30000 if thorough else 5000
+    n_rand = 120000 if thorough else 12000
     made = 0
     while made < n_rand:
         nf = rng.choice([0, 0, 1, 2, 3])
